@@ -326,22 +326,29 @@ func runC19(r *ev.Run, thorough bool) int {
 	nhExplore(r, "C19", "c19fwd", 0, []nhEvent{{Op: "up", P: "dest"}, {Op: "down", P: "dest"}, {Op: "up", P: "r1"}, {Op: "up", P: "r2"}}, alpha, fdepth-1, budget, &st)
 	r.Add("forwarding_transitions", int64(st.Transitions))
 	r.Add("forwarding_sends_observed", int64(st.SendsSeen))
+	// concurrent peer-appeared / vector-received / ageing (E3, tracked own-predictability map)
+	sbound, sbudget := 2, 4000
+	if thorough {
+		sbound, sbudget = 3, 200000
+	}
+	sexecs := nhSchedRun(r, "C19", nhConcArg{Algo: "prophet", Mode: "vectors", Peers: 3}, sbound, sbudget)
 	if trans == 0 || st.SendsSeen == 0 {
 		r.Violation("C19/vacuous", "none", "nothing explored", nil)
 	}
 	return r.Finish(map[string]interface{}{
 		"states":                        states + st.States,
 		"transitions":                   trans + st.Transitions + orbit,
-		"traces_validated_against_impl": trans + st.Validated + orbit,
-		"evaluations":                   trans + st.Transitions + orbit,
+		"schedules":                     sexecs,
+		"traces_validated_against_impl": trans + st.Validated + orbit + sexecs,
+		"evaluations":                   trans + st.Transitions + orbit + sexecs,
 		"distinct_nontrivial":           states + st.Outcomes,
-		"rule":                          fmt.Sprintf("(a) for 8 constant triples (incl. 0, 1, denormals, 1-2^-53): BFS to depth %d over {encounter P1/P2, ageing task, summary vector from P1/P2 with predictabilities from %d boundary values squared} executed by the real PRoPHET code (state = exact float bits of the own vector, successor = fresh instance + replay), every value in [0,1], encounter/transitivity never lower, ageing never raises; plus 11 periodic event words iterated until the state repeats or 10000 steps; (b) BFS over a live node with relays advertising predictabilities 0.25/0.5/0.75 for the destination, own value 0 or PInit=0.5 (after meeting the destination): a data bundle is offered to a relay only if its advertised value is strictly greater than the own one", depth, len(vals)),
-	}, []string{"the encounter/ageing/vector seams call the algorithm's own unexported code through one-line bridges", "the Go runtime's concurrent-map abort needs true parallelism and is outside what the cooperative scheduler decides (see DESIGN)"})
+		"rule":                          fmt.Sprintf("(a) for 8 constant triples (incl. 0, 1, denormals, 1-2^-53): BFS to depth %d over {encounter P1/P2, ageing task, summary vector from P1/P2 with predictabilities from %d boundary values squared} executed by the real PRoPHET code (state = exact float bits of the own vector, successor = fresh instance + replay), every value in [0,1], encounter/transitivity never lower, ageing never raises; plus 11 periodic event words iterated until the state repeats or 10000 steps; (b) BFS over a live node with relays advertising predictabilities 0.25/0.5/0.75 for the destination, own value 0 or PInit=0.5 (after meeting the destination): a data bundle is offered to a relay only if its advertised value is strictly greater than the own one; (c) all schedules with at most %d preemptions of {handler thread: peer appeared (encounter, summary vector through store and per-peer sender threads), then summary vector received (transitive update); cron thread: ageing job} on a node with two connected peers, the own predictability map tracked: no thread writes the map while another iterates over it (the condition the Go runtime aborts the process for), no deadlock, no panic, the new peer gets its vector", depth, len(vals), sbound),
+	}, []string{"the encounter/ageing/vector seams call the algorithm's own unexported code through one-line bridges", "the concurrent-map abort is modelled as 'write while another thread has an open iteration' at the instrumented range/assignment statements of package routing and the metadata block serialisers; overlapping plain reads and writes without a schedule point between them are not modelled"})
 }
 
 func replayC19(kind string, c json.RawMessage) (string, bool) {
-	if kind == "history" {
-		return nhReplayCmd(c)
+	if kind == "history" || kind == "sched" {
+		return nhReplayAny(kind, c)
 	}
 	return "numeric cases are enumerated deterministically: re-run the check", false
 }
